@@ -81,6 +81,17 @@ pub enum Stmt {
     Import(String, Vec<Stmt>),
 }
 
+/// a branch that can follow a condition without braces and without being read as part of it: a
+/// non-negative literal or a name
+fn bare_branch(s: &Stmt) -> bool {
+    match s {
+        Stmt::Expr(Expr::Int(i)) => *i >= 0,
+        Stmt::Expr(Expr::Float(f)) => !f.is_sign_negative(),
+        Stmt::Expr(Expr::Bool(_) | Expr::Str(_) | Expr::Var(_)) => true,
+        _ => false,
+    }
+}
+
 const L_ASSIGN: u8 = 0;
 const L_ITER: u8 = 11;
 const L_PREFIX: u8 = 12;
@@ -272,6 +283,14 @@ impl Printer {
             Stmt::FnDecl(n, ps, r, b) => format!("{n} := {}", self.function(ps, r, b)),
             Stmt::Expr(e) => self.expr(e),
             Stmt::Block(b) => format!("{{ {} }}", self.stmts(b)),
+            Stmt::If(c, t, Some(e)) if bare_branch(t) && bare_branch(e) => {
+                // branches without braces: `if c 7 else 7` (not when a literal is printed hidden, `*(mut int 7)`,
+                // which would be read as a factor of the condition); every part is printed exactly once
+                let head = self.head(c);
+                let (a, b) = (self.stmt(t), self.stmt(e));
+                let safe = |x: &str| x.starts_with(|ch: char| ch.is_ascii_alphanumeric() || ch == '"');
+                if safe(&a) && safe(&b) { format!("if {head} {a} else {b}") } else { format!("if {head} {{ {a}; }} else {{ {b}; }}") }
+            }
             Stmt::If(c, t, e) => {
                 let mut s = format!("if {} {}", self.head(c), self.body(t));
                 if let Some(e) = e {
